@@ -40,9 +40,11 @@ def setup_early():
         sys.path.insert(0, REPO_SRC)
     if VERIF not in sys.path:
         sys.path.insert(0, VERIF)
-    from sim import core, threads, aio, osproc
-    osproc.preinstall()
-    threads.install()
+    from sim import core, threads
+    threads.install()  # before asyncio / multiprocessing are imported: their threading.local subclasses must derive from ours
+    from sim import osproc
+    osproc.preinstall()  # os.getpid, before multiprocessing.util can be imported by anything
+    from sim import aio
     aio.install()
     return core
 
